@@ -137,6 +137,19 @@ class PSocket(vnet.VSocket):
             self._net.inject(f)
         return super()._fault(kind, k)
 
+    def recv_into(self, buffer, nbytes=0, *flags):
+        try:
+            return super().recv_into(buffer, nbytes, *flags)
+        except vnet.HarnessStall:
+            # the client reads although the scripted server owes it nothing (only a tree that reuses a connection it
+            # should have closed gets here): with the pool's finite read timeout that is a read timeout, not a hang
+            if self._timeout_v is None:
+                raise
+            self._net.log.append(("STALL", self._cid))
+            self._net.stalls += 1
+            self._net.clock_advance(self._timeout_v)
+            raise socket.timeout("timed out") from None
+
 
 class _RetryTime:
     """Stand-in for the `time` module inside urllib3.util.retry: only sleep() differs."""
@@ -161,6 +174,7 @@ class PNet(vnet.Net):
         self.loc = loc             # Location value for 302 replies
         self.injected = []         # BaseException objects raised into urllib3 since the last mark
         self.explicit_closed = set()
+        self.stalls = 0
 
     def __enter__(self):
         super().__enter__()
@@ -506,6 +520,7 @@ def run_scenario(sc):
         obs["fin"] = {"qlen": len(qi), "pooled": sum(1 for x in qi if x), "pooled_open": sum(1 for x in qs if x),
                       "dials": len(pnet.peers)}
         obs["extra_attempts"] = rec.extra_attempts
+        obs["stalls"] = pnet.stalls
         # ---- probe: the public behaviour named in the property's anchor
         from urllib3.exceptions import EmptyPoolError
         rec.atts = None
@@ -610,6 +625,8 @@ def compare(sc, obs):
             diffs.append(f"disposal {e['how']} of {e['id']}: model {e['out']}; code {o['out']}")
     if "fin" in sc and sc["fin"] != obs["fin"]:
         diffs.append(f"final state: model {sc['fin']}; code {obs['fin']}")
+    if obs.get("stalls"):
+        diffs.append(f"{obs['stalls']} reads the scripted server did not owe (timed out)")
     if obs.get("extra_attempts"):
         diffs.append(f"{obs['extra_attempts']} attempts beyond the model's")
     return diffs
